@@ -5,7 +5,7 @@
 
 package batchresource
 
-//@ uses pkg/util, pkg/slo-controller/noderesource/plugins/util
+//@ uses pkg/util, pkg/slo-controller/noderesource/plugins/util, apis/extension
 
 // Stale or missing node metrics: degrade.
 //@ func (*Plugin).isDegradeNeeded [C09]
